@@ -22,8 +22,10 @@ PROBES = {"C13": ["stretch_inside_training", "stretch_overlapping_end", "stretch
                   "nonzero_origin", "pickle_midway", "pipeline_as_transformer", "seasonal_fit_checked",
                   "reconfigured_and_refitted", "strided_stretch", "refitted_on_other_stretch",
                   "frozen_update_checked", "period_changed_and_refitted",
-                  "fit_transform_on_fitted_instance", "unpaired_calls_checked"]}
-FAULT_KINDS = {"C13": ["index_shift", "pickle_roundtrip", "update_interleaved", "overlap_batch"]}
+                  "fit_transform_on_fitted_instance", "unpaired_calls_checked",
+                  "sibling_from_same_arguments"]}
+FAULT_KINDS = {"C13": ["index_shift", "pickle_roundtrip", "update_interleaved", "overlap_batch",
+                       "shared_constructor_arguments"]}
 RULE = {"C13": (
     "seeded transformer configuration x series x history of fit, round trips on stretches that "
     "start inside / across the end of / after the training series, interleaved update calls and "
@@ -154,6 +156,8 @@ def generate(prop, rng, tier):
         elif r < 0.94:
             ops.append({"op": "refit", "start": rng.randint(1, 7),
                         "via": rng.choice(["fit", "fit_transform"])})
+        elif r < 0.955:
+            ops.append({"op": "sibling", "start": rng.randint(0, 6)})
         elif r < 0.98 and minstretch == 1:
             ops.append({"op": "unpaired", "where": rng.choice(["inside", "overlap", "after"]),
                         "off": rng.randint(0, 9), "len": rng.randint(2, 8),
@@ -251,6 +255,7 @@ def execute(prop, scen):
                     return False
         return True
 
+    minlen_rt = _min_len(spec) if base["kind"] in ("hampel", "imputer") or kind == "ttf_t" else 2
     sc = sched.Scheduler("fifo", 0)
     with sched.scenario_schedule(sc):
         for i, op in enumerate(scen["ops"]):
@@ -395,6 +400,47 @@ def execute(prop, scen):
                 fitted, pos, updates_since_fit = True, n_fit, 0
                 if not after_fit():
                     break
+            elif o == "sibling":
+                # another transformer built from the very same constructor argument objects
+                # (the user's scaler / forecaster / wrapped transformer), fitted on other data
+                # between a transform and the matching inverse_transform: the transformer under
+                # test owns private fitted copies, so the round trip is unaffected
+                st = op["start"]
+                invertible = kind in INVERTIBLE and _base(spec)["kind"] != "passthrough" \
+                    and hasattr(t, "inverse_transform")
+                w = y.iloc[1:1 + max(minlen_rt, min(8, n_fit - 1))]
+                zt_before = None
+                if invertible:
+                    try:
+                        zt_before = t.transform(w.copy())
+                    except Exception:
+                        zt_before = None
+                for tr, yy in ((t, y), (t2, y2)):
+                    try:
+                        with peers.paused():
+                            sib = type(tr)(**tr.get_params(deep=False))
+                            zz_ = yy.iloc[st:st + n_fit] * 3.0 + 5.0
+                            sib.fit(zz_)
+                            sib.transform(zz_.copy())
+                    except Exception:
+                        pass
+                res.probe("sibling_from_same_arguments")
+                res.fault("shared_constructor_arguments")
+                if zt_before is not None and not _ill_conditioned(t, spec):
+                    try:
+                        zi = t.inverse_transform(zt_before.copy())
+                    except Exception as e:  # noqa
+                        v("op_raised", "inverse_transform raised %s after another transformer was "
+                          "built from the same arguments" % type(e).__name__, op="sibling",
+                          exc=type(e).__name__)
+                        break
+                    fin = np.isfinite(np.asarray(zt_before.values, float))
+                    if not (C.same_index(zi.index, w.index) and np.allclose(
+                            np.asarray(zi.values, float)[fin], w.values[fin], rtol=1e-6, atol=1e-8)):
+                        v("roundtrip_values", "inverse_transform(transform(z)) is %s for z = %s when "
+                          "another transformer built from the same constructor arguments is fitted "
+                          "in between" % (C.fmt(zi), C.fmt(w)), where="sibling", after_update=False)
+                        break
             elif o == "unpaired":
                 # a transform of one stretch followed by an inverse_transform of ANOTHER stretch
                 # (same first time point, same number of points, other time points), or the other
